@@ -241,7 +241,7 @@ pub fn run(c: &S) -> S {
         Err(code) => return sl![a(1), a(code)],
     };
     let file_s = if o.compress { S::L(vec![]) } else { S::from_bytes(&bytes) };
-    let mut r = match BigWigRead::open(Cursor::new(bytes)) {
+    let mut r = match BigWigRead::open(crate::ShortReads::<_, 61>(Cursor::new(bytes))) {
         Ok(r) => r,
         Err(e) => {
             let code = match e {
